@@ -1,6 +1,7 @@
 import Originium.Model.SchedProofs
 import Originium.Generated.LockTable
 import Originium.Model.SchedObs
+import Originium.Model.DBTie
 /-! # C15 — every call returns: no deadlock among commits, readers, flusher and Close
 
 `Sched.Reach cap nc nr s`: `s` is reachable with a flush queue of capacity `cap` (any value, 0 =
@@ -142,6 +143,15 @@ example : ∃ s, Reach 0 1 1 s ∧ s.cl = ClPc.done ∧ s.cDone = 1 ∧ s.rDone 
   simp only [Option.map_some, Option.some.injEq, Prod.mk.injEq] at this
   exact this
 
+
+/-- the Go code itself (`DB.rawset`, translated on every run): the frozen memtable is sent to the flusher — the only
+    operation of a committer that can wait for the flusher — after `db.mu` has been released, never between
+    `db.mu.Lock` and `db.mu.Unlock` (the flusher needs `db.mu` to remove what it flushed) -/
+theorem C15_code_send_outside_dbmu (size threshold : Nat) (h : threshold ≤ size) :
+    GenDB.rawset size threshold [] =
+      ["memtable.set batch", "memtable.freeze", "db.mu.Lock", "immutables.PushBack", "memtable = reset", "db.mu.Unlock", "flushC <- imt"] := by
+  rw [DBTie.rawset_table, if_pos h]
+
 #print axioms C15_no_stuck_state
 #print axioms C15_waits_hold_only_writeLock
 #print axioms C15_lock_order
@@ -154,4 +164,5 @@ example : ∃ s, Reach 0 1 1 s ∧ s.cl = ClPc.done ∧ s.cDone = 1 ∧ s.rDone 
 #print axioms C15_close_waits
 #print axioms C15_full_queue_drains
 #print axioms C15_old_close_stuck
+#print axioms C15_code_send_outside_dbmu
 end Props
